@@ -1517,9 +1517,229 @@ def check_shapes(ctx, rows=None):
     return res
 
 
+# ---- wavelength arguments of any numeric TYPE (whole microns passed as integers) ----
+INT_SYNTH_PER_FORMULA = 5
+
+
+def _whole_microns(lo, hi, cap=4):
+    """the whole numbers of microns inside [lo, hi] (first, last and evenly spread ones, at most `cap`)"""
+    a, b = max(1, int(math.ceil(lo - 1e-12))), int(math.floor(hi + 1e-12))
+    ws = [w for w in range(a, min(b, a + 5000) + 1) if lo <= w <= hi]
+    if len(ws) > cap:
+        ws = sorted({ws[0], ws[-1]} | {ws[(len(ws) - 1) * j // (cap - 1)] for j in range(cap)})
+    return ws
+
+
+def type_rows(ctx):
+    """catalogue rows whose stated range contains a whole number of microns: per formula the rows on which every
+    coefficient matters, one row per number of terms and the first ones in catalogue order; per table layout the first
+    rows; plus a seeded sample.  {row: class}"""
+    df = _catalog()
+    fi = _formula_index()
+    st = table_structure()
+
+    def whole(i):
+        r = df.iloc[i]
+        return bool(_whole_microns(float(r['min_wavelength']), float(r['max_wavelength'])))
+    bad = {i for i, fn in enumerate(df['filename']) if 'polyvinylpyrrolidone/Konig' in fn}
+    ti = _table_index()
+    pick = {}
+    for k in range(1, 10):
+        rows = [i for i in sensitive_rows() if fi.get(i, (0,))[0] == k and whole(i)]
+        lens = {}
+        allk = [i for i, (kk, c) in sorted(fi.items()) if kk == k and whole(i)]
+        for i in allk:
+            lens.setdefault(len(fi[i][1]), i)
+        for i in (rows[:4] + list(lens.values())[:8] + allk)[:ctx.n(30, 10 ** 6)]:
+            pick.setdefault(i, f'formula {k}')
+    for lay in ('n-only', 'nk-only', 'n+k', 'k-only', 'formula+k', 'formula+nk', 'repeated-wavelength'):
+        rows = [i for i in st[lay] if whole(i) and max(len(xs) for _, xs in ti[i]) < 3000]
+        for i in rows[:ctx.n(3, 10 ** 6)]:
+            pick.setdefault(i, 'table ' + lay)
+    rng = random.Random(ctx.seed * 37 + 5)
+    cand = [i for i in range(len(df)) if i not in pick and i not in bad and whole(i)
+            and (i in fi or i not in ti or max(len(xs) for _, xs in ti[i]) < 3000)]
+    for i in rng.sample(cand, min(len(cand), ctx.n(100, len(cand)))):
+        pick.setdefault(i, 'seeded sample')
+    return {i: c for i, c in sorted(pick.items()) if i not in bad}
+
+
+def typed_arguments(ws):
+    """[(description, argument, [float wavelengths in result order], result shape)] - the same whole-micron
+    wavelengths as Python / numpy integers, 0-d, 1-D and 2-D integer arrays, and as floats (reference route)"""
+    import numpy as np
+    out = []
+    for w in ws:
+        out.append((f'{w} (python int)', int(w), [float(w)], ()))
+        out.append((f'numpy.int64({w})', np.int64(w), [float(w)], ()))
+        if w <= 1000:
+            out.append((f'numpy.int32({w})', np.int32(w), [float(w)], ()))
+        out.append((f'numpy.array({w}) (0-d, integer dtype)', np.array(int(w)), [float(w)], ()))
+        out.append((f'{float(w)!r} (python float)', float(w), [float(w)], ()))
+        out.append((f'numpy.float64({w})', np.float64(w), [float(w)], ()))
+    fl = [float(w) for w in ws]
+    out.append((f'numpy.array({list(ws)}, dtype=int64)', np.array(ws, dtype=np.int64), fl, (len(ws),)))
+    if max(ws) <= 1000:
+        out.append((f'numpy.array({list(ws)}, dtype=int32)', np.array(ws, dtype=np.int32), fl, (len(ws),)))
+    out.append((f'numpy.array([{list(ws)}], dtype=int64) (2-D)', np.array([ws], dtype=np.int64), fl, (1, len(ws))))
+    out.append((f'numpy.array({list(ws)}, dtype=float)', np.array(ws, dtype=float), fl, (len(ws),)))
+    return out
+
+
+def typed_violations(m, secs, ws, formula=None):
+    """n() and k() of one loaded data file on whole-micron wavelengths of every numeric type: each result must have
+    the argument's shape and equal the data file's formula / consecutive-row interpolation at float(w) - the expected
+    value is computed here from the file, never from another call of the implementation"""
+    import numpy as np
+    out, count = [], 0
+    has_n = sum(1 for s in secs if s[0] in ('formula', 'n', 'nk')) == 1
+    has_k = sum(1 for s in secs if s[0] in ('k', 'nk')) == 1
+    with warnings.catch_warnings():
+        warnings.simplefilter('ignore')
+        np.seterr(all='ignore')
+        for key, fn, orc, present in (('n', m.n, oracle_n, has_n), ('k', m.k, oracle_k, has_k)):
+            if not present:
+                continue
+            orcs = {float(w): orc(secs, float(w)) for w in ws}
+            if any(o[0] == 'ok' and any(isinstance(e, complex) or not math.isfinite(e) for e in o[1])
+                   for o in orcs.values()):
+                continue
+            wk = [w for w in ws if orcs[float(w)][0] == 'ok']      # (a 0/0 term of the file itself: nothing promised)
+            for desc, arg, fl, shape in (typed_arguments(wk) if wk else []):
+                integer = 'float' not in desc
+                count += len(fl)
+                base = {'call': f'{key}({desc})', 'formula': formula}
+                try:
+                    res = fn(arg)
+                except Exception as e:
+                    out.append(dict(base, cause='integer-argument-raises' if integer else 'float-argument-raises',
+                                    error=f'{type(e).__name__}: {e}'[:120],
+                                    oracle=[orcs[w][1][:2] if orcs[w][0] == 'ok' else None for w in fl]))
+                    continue
+                if np.shape(res) != shape:
+                    out.append(dict(base, cause='integer-argument-shape' if integer else 'array-shape',
+                                    result_shape=list(np.shape(res)), argument_shape=list(shape)))
+                    continue
+                for w, v in zip(fl, np.ravel(np.asarray(res))):
+                    o = orcs[w]
+                    if o[0] != 'ok':
+                        continue
+                    if np.iscomplexobj(v) or not _agree_any(float(v), o[1]):
+                        out.append(dict(base, cause=('integer-argument-value' if integer else
+                                                     ('index-value' if key == 'n' else 'k-value')),
+                                        wavelength=w, implementation=complex(v).real if np.iscomplexobj(v) else float(v),
+                                        oracle=o[1][:2], result_dtype=str(np.asarray(res).dtype)))
+                        break
+    return out, count
+
+
+def synthetic_files(ctx, tmp):
+    """generated data files of all nine formulas (every coefficient non-zero and distinct, exponents integral and
+    fractional, positive and negative) valid at 1, 2 and 3 um: [(path, formula)].  Formulas 7 and 8 have no catalogue
+    row whose range contains a whole micron."""
+    rng = random.Random(ctx.seed * 41 + 9)
+    out = []
+    for k in range(1, 10):
+        made = 0
+        for _ in range(80):
+            ln = {4: rng.choice([9, 11, 13]), 7: rng.choice([3, 4, 5, 6]), 8: 4, 9: 6}.get(k, rng.choice([3, 5, 7]))
+            scale = 0.12 if k == 8 else (0.02 if k == 7 else 1.0)
+            c = [round((rng.uniform(0.05, 0.9) + 0.01 * j) * scale, 5) for j in range(ln)]
+            if k in (3, 5):
+                c[0] = round(rng.uniform(1.2, 3.4), 6)
+                for j in range(2, ln, 2):
+                    c[j] = rng.choice([-4.0, -2.0, 2.0, 4.0, -1.0, 1.0, 0.5, -1.5])
+                    c[j - 1] = round(c[j - 1] * 0.02, 6)
+            if k == 4:
+                c[0] = round(rng.uniform(1.5, 3.0), 6)
+                for j in (2, 6):
+                    c[j] = rng.choice([0.0, 2.0])
+                for j in (4, 8):
+                    c[j] = rng.choice([1.0, 2.0])
+                for j in range(10, ln, 2):
+                    c[j] = rng.choice([-4.0, -2.0, 2.0, 4.0])
+                    c[j - 1] = round(c[j - 1] * 0.01, 6)
+            if k == 6:
+                c = [round(x * 1e-3, 8) if j % 2 == 1 or j == 0 else round(20 + 80 * x, 5) for j, x in enumerate(c)]
+            if k == 7:
+                c[0] = round(rng.uniform(1.4, 2.5), 6)
+            try:
+                vals = [py_formula(k, c, float(w)) for w in (1, 2, 3)]
+            except (ValueError, ZeroDivisionError, OverflowError):
+                continue
+            if any(isinstance(v, complex) or not math.isfinite(v) or not 1.0 <= v < 6 for v in vals):
+                continue
+            path = os.path.join(tmp, f'synthetic_formula{k}_{made}.yml')
+            with open(path, 'w') as f:
+                f.write('REFERENCES: "generated by the C18 check"\nDATA:\n  - type: formula %d\n'
+                        '    wavelength_range: 0.9 3.1\n    coefficients: %s\n' % (k, ' '.join(repr(x) for x in c)))
+            out.append((path, k))
+            made += 1
+            if made >= ctx.n(INT_SYNTH_PER_FORMULA, 40):
+                break
+    return out
+
+
+def check_argument_types(ctx):
+    """"the index returned at ANY wavelength inside the range equals the formula ... scalar and array arguments agree"
+    for wavelengths that are whole numbers of microns handed over as Python ints, numpy integer scalars and
+    integer-dtype arrays (implementation-level oracle; expected values from the data file)"""
+    import tempfile
+    from optiland.materials.material_file import MaterialFile
+    df = _catalog()
+    res = {'name': 'integer-typed-wavelengths', 'n': 0, 'nontrivial': 0, 'samples': [], 'disagreements': [],
+           'histogram': {}}
+    hist = res['histogram']
+
+    def run(path, label, secs, ws, formula, row=None):
+        try:
+            with warnings.catch_warnings():
+                warnings.simplefilter('ignore')
+                m = MaterialFile(path)
+        except Exception:
+            return
+        viol, cnt = typed_violations(m, secs, ws, formula)
+        res['n'] += cnt
+        res['nontrivial'] += int(cnt > 0)
+        seen = set()
+        for v in viol:
+            if v['cause'] in seen:
+                continue
+            seen.add(v['cause'])
+            res['disagreements'].append(dict(v, kind='argument-type', file=label, row=row, wavelengths=list(ws),
+                                             violations=sum(1 for x in viol if x['cause'] == v['cause']),
+                                             violates_property=True))
+
+    for i, cls in type_rows(ctx).items():
+        r = df.iloc[i]
+        path = _repo('database', 'data-nk', r['filename'])
+        secs = read_sections(path)
+        if any(not nondecreasing([q[0] for q in s[1]]) for s in secs if s[0] in ('n', 'k', 'nk')):
+            continue
+        ws = _whole_microns(float(r['min_wavelength']), float(r['max_wavelength']))
+        layout = '+'.join(s[0] + (str(s[1]) if s[0] == 'formula' else '') for s in secs)
+        hist['catalogue ' + layout] = hist.get('catalogue ' + layout, 0) + 1
+        hist['whole microns per row: %d' % len(ws)] = hist.get('whole microns per row: %d' % len(ws), 0) + 1
+        fs = [s[1] for s in secs if s[0] == 'formula']
+        run(path, r['filename'], secs, ws, fs[0] if fs else None, int(i))
+    tmp = tempfile.mkdtemp(prefix='c18_types_', dir='/tmp')
+    try:
+        for path, k in synthetic_files(ctx, tmp):
+            secs = read_sections(path)
+            hist[f'generated formula{k}'] = hist.get(f'generated formula{k}', 0) + 1
+            run(path, 'generated:' + open(path).read().split('coefficients:')[1].strip(), secs, [1, 2, 3], k)
+    finally:
+        import shutil
+        shutil.rmtree(tmp, ignore_errors=True)
+    res['samples'].append({'argument types': 'python int, numpy.int64, numpy.int32, 0-d / 1-D / 2-D integer arrays, '
+                                             'python float, numpy.float64, float array; whole microns inside the range'})
+    return res
+
+
 def system_checks(ctx):
     yield check_index(ctx)
     yield check_shapes(ctx)
+    yield check_argument_types(ctx)
     yield check_lookup_property(ctx)
     yield check_lookup_model(ctx)
     yield check_lookup_history(ctx)
@@ -1647,6 +1867,10 @@ def matches_finding(w, f):
         return w.get('cause') == m.get('cause') and ('file' not in m or w.get('file') == m.get('file'))
     if k == 'abbe-call':
         return m.get('class', '') in w.get('material', '') and 'not callable' in w.get('error', '')
+    if k == 'argument-type':
+        return (w.get('cause') == m.get('cause') and w.get('formula') == m.get('formula')
+                and m.get('error', '') in w.get('error', '') and 'python int' not in w.get('call', '')
+                and 'float' not in w.get('call', ''))
     if k == 'model-glass':
         return w.get('V_d', 0) > m.get('V_d_above', 1e9) and abs(w.get('model_n_d_error', 1)) <= GLASS_TOL_N
     return False
@@ -1672,6 +1896,19 @@ def replay_finding(ctx, f):
         return bool(viol) and viol[0]['cause'] == m['cause']
     if k == 'abbe-call':
         return any(m['class'] in d['material'] for d in check_abbe_call(ctx)['disagreements'])
+    if k == 'argument-type':
+        import numpy as np
+        from optiland.materials.material_file import MaterialFile
+        ex = m['example']
+        path = _repo('database', 'data-nk', ex['file'])
+        o = oracle_n(read_sections(path), float(ex['wavelength']))
+        try:
+            with warnings.catch_warnings():
+                warnings.simplefilter('ignore')
+                v = _f(MaterialFile(path).n(np.int64(ex['wavelength'])))
+        except Exception as e:
+            return m.get('error', '') in str(e)
+        return not (o[0] == 'ok' and _agree_any(v, o[1]))
     if k == 'model-glass':
         ex = m['example']
         return glass_violation(ex['glass'], ex['n_d'], ex['V_d']) is not None
